@@ -68,7 +68,19 @@ impl Code {
 			}
 			if interests.local_variable_table || interests.local_variable_type_table {
 				if let Some(local_variables) = self.local_variables {
-					code_visitor.visit_local_variables(local_variables)?;
+					// like the class reader: only the entries (and the halves of an entry) that come from the tables the visitor is interested in
+					let was_empty = local_variables.is_empty();
+					let local_variables: Vec<Lv> = local_variables.into_iter()
+						.map(|lv| Lv {
+							descriptor: if interests.local_variable_table { lv.descriptor } else { None },
+							signature: if interests.local_variable_type_table { lv.signature } else { None },
+							..lv
+						})
+						.filter(|lv| lv.descriptor.is_some() || lv.signature.is_some())
+						.collect();
+					if was_empty || !local_variables.is_empty() {
+						code_visitor.visit_local_variables(local_variables)?;
+					}
 				}
 			}
 
